@@ -262,8 +262,50 @@ def tmpl_nested(rng):
             "state": {"gen": ("libs/lib", "lib::gen"), "bundle": (".", "bundle")}}
 
 
+T_FILT = """targets:
+  g:
+    input:
+      - paths: [g.in]
+    output:
+      - paths: [gen]
+    build: 'true'
+  c:
+    input:
+      - paths: [gen]
+        extensions: [h]
+      - g.output
+    output:
+      - paths: [c.out]
+    build: 'true'
+  d:
+    input:
+      - paths: [gen]
+        extensions: [h]
+      - paths: [gen]
+        extensions: [c]
+    output:
+      - paths: [d.out]
+    build: 'true'
+"""
+
+
+def tmpl_filt(rng):
+    # the same directory reaches a target several times with different (or no) extension filters: the target depends on the
+    # union of what each resource denotes
+    allg = ["gen/a.h", "gen/b.c", "gen/notes.md"]
+    model = {"paths": ["g.in", "c.out", "d.out", "x.txt"] + allg,
+             "targets": {"g": {"inp": ["g.in"], "out": allg, "hasInput": True},
+                         "c": {"inp": allg, "out": ["c.out"], "hasInput": True},
+                         "d": {"inp": ["gen/a.h", "gen/b.c"], "out": ["d.out"], "hasInput": True}},
+             "focus": ["C13", "C15"]}
+    return {"files": {"zinoma.yml": T_FILT}, "model": model, "members": ["g.in"] + allg, "others": ["x.txt"],
+            "outs": {"g": allg, "c": ["c.out"], "d": ["d.out"]},
+            "targets": ["g", "c", "d"], "inv": {k: dict(entry=".", name=k) for k in ("g", "c", "d")},
+            "state": {k: (".", k) for k in ("g", "c", "d")}}
+
+
 TEMPLATES = [("single", tmpl_single, 4), ("cmd", tmpl_cmd, 2), ("multi", tmpl_multi, 4), ("names", tmpl_names, 2), ("dup", tmpl_dup, 2),
-             ("nested", tmpl_nested, 2)]
+             ("nested", tmpl_nested, 2), ("filt", tmpl_filt, 2)]
 
 
 def gen_history(rng, hid, tname, T, nops, faults=True):
